@@ -122,6 +122,16 @@ def rule_graph_game(prog: Program, col: Collector) -> None:
                                                                     it[2][0][2] == (("attr", cp, "players"),))
         adds = [e for e in ft.of_kind("aug") if e.op == "+" and e.value == ("index", M, ("tuple", (("index", el, ("const", 0)), ("index", el, ("const", 1)))))]
         ok = okit and len(adds) == 1
+    if not loops:
+        # the same sum as an expression: sum(M[i, j] for i, j in combinations(c.players, 2)) / reduce(add, <that>, 0.0)
+        from .common import comp_parts
+        for r in ft.of_kind("return"):
+            for t in subterms(r.value):
+                if is_call_to(t, "sum", "math.fsum") and len(t[2]) == 1:
+                    parts = comp_parts(t[2][0])
+                    if parts is not None and not parts[3] and is_call_to(parts[2], "itertools.combinations") and parts[2][2] == (("attr", cp, "players"), ("const", 2)) \
+                            and parts[0] == ("index", M, ("tuple", (("index", parts[1], ("const", 0)), ("index", parts[1], ("const", 1))))):
+                        ok = True
     col.check(ok, gv.where(), gv.short, "get_value(c) = sum of matrix[i, j] over pairs i < j of c's players (ascending player order)", construct="graph-value",
               necessity="players are listed in ascending order, so combinations yields i < j: only the upper triangle may carry weight")
     init = mm["__init__"]
